@@ -350,7 +350,7 @@ op_strategy = st.one_of(
 
 
 def shards(tier):
-    out = [{'name': 'histories-%d' % i, 'kind': 'hyp', 'examples': 150 if tier == 'quick' else 2500, 'hypothesis': True,
+    out = [{'name': 'histories-%d' % i, 'kind': 'hyp', 'examples': 150 if tier == 'quick' else 6000, 'hypothesis': True,
             'steps': 25 if tier == 'quick' else 50} for i in range(8 if tier == 'quick' else 16)]
     out += [{'name': 'exhaustive-%d' % i, 'kind': 'exh', 'part': i, 'parts': 8, 'len': 3 if tier == 'quick' else 4} for i in range(8)]
     return out
